@@ -20,6 +20,7 @@ pub enum Kind {
     Box,
     Pair,
     R4,
+    PB,
     List,
     Node,
     Cont(Vec<Kind>),
@@ -42,6 +43,7 @@ pub enum Op {
     MkBox,
     MkPair,
     MkR4,
+    MkPB,
     Dup(usize),
     Drop(usize),
     ToLast(usize),
@@ -65,6 +67,7 @@ impl Op {
             "MkBox" => Op::MkBox,
             "MkPair" => Op::MkPair,
             "MkR4" => Op::MkR4,
+            "MkPB" => Op::MkPB,
             "Switch" => Op::Switch,
             "Invoke" => Op::Invoke,
             _ => {
@@ -91,6 +94,7 @@ fn kind_binding(k: &Kind, id: usize) -> ContextBinding {
         Kind::Box => ContextBinding { var, chi: Chirality::Prd, ty: ty("Box") },
         Kind::Pair => ContextBinding { var, chi: Chirality::Prd, ty: ty("Pair") },
         Kind::R4 => ContextBinding { var, chi: Chirality::Prd, ty: ty("R4") },
+        Kind::PB => ContextBinding { var, chi: Chirality::Prd, ty: ty("PB") },
         Kind::List => ContextBinding { var, chi: Chirality::Prd, ty: ty("List") },
         Kind::Node => ContextBinding { var, chi: Chirality::Prd, ty: ty("Node") },
         Kind::Cont(_) => ContextBinding { var, chi: Chirality::Cns, ty: ty("_Cont") },
@@ -111,6 +115,7 @@ fn data_type_name(k: &Kind) -> Option<&'static str> {
         Kind::Box => Some("Box"),
         Kind::Pair => Some("Pair"),
         Kind::R4 => Some("R4"),
+        Kind::PB => Some("PB"),
         Kind::List => Some("List"),
         Kind::Node => Some("Node"),
         _ => None,
@@ -123,6 +128,7 @@ fn kind_of_binding(b: &ContextBinding) -> Kind {
             "Box" => Kind::Box,
             "Pair" => Kind::Pair,
             "R4" => Kind::R4,
+            "PB" => Kind::PB,
             "List" => Kind::List,
             "Node" => Kind::Node,
             other => panic!("kind_of_binding: {other}"),
@@ -140,10 +146,11 @@ pub fn enabled(kinds: &[Kind], k: usize, rich: bool, pad: usize) -> Vec<Op> {
 }
 
 /// mode 0: lists/boxes/closures; 1: rich (adds trees, pairs, two-block records, closures over two
-/// variables); 2: records only (literals, boxes, pairs, two-block records; no lists, no closures)
+/// variables); 2: records only (literals, boxes, pairs, two-block records; no lists, no closures);
+/// 3: nested records (literals, boxes, and a two-block record with a box pointer in each block)
 pub fn enabled_mode(kinds: &[Kind], k: usize, mode: u8, pad: usize) -> Vec<Op> {
-    let rich = mode >= 1;
-    let records = mode == 2;
+    let rich = mode == 1 || mode == 2;
+    let records = mode >= 2;
     let n = kinds.len();
     let mut ops = Vec::new();
     if n < k {
@@ -169,6 +176,9 @@ pub fn enabled_mode(kinds: &[Kind], k: usize, mode: u8, pad: usize) -> Vec<Op> {
     }
     if rich && n >= 4 && kinds[n - 4..].iter().all(|x| *x == Kind::Int) {
         ops.push(Op::MkR4);
+    }
+    if mode == 3 && n >= 4 && kinds[n - 4..] == [Kind::Box, Kind::Int, Kind::Int, Kind::Box] {
+        ops.push(Op::MkPB);
     }
     for i in 0..n {
         if n < k && kinds[i] != Kind::Int {
@@ -235,6 +245,7 @@ pub fn op_statement(types: &[TypeDeclaration], op: Op, kinds: &[Kind], pad: usiz
         Op::MkBox => let_("Box", "B", 1),
         Op::MkPair => let_("Pair", "Tup", 2),
         Op::MkR4 => let_("R4", "K4", 4),
+        Op::MkPB => let_("PB", "KPB", 4),
         Op::Dup(i) => {
             let mut r: Vec<(ContextBinding, Identifier)> = ctx.iter().map(|b| (b.clone(), b.var.clone())).collect();
             r.push((new(&kinds[i]), ctx[i].var.clone()));
@@ -308,6 +319,9 @@ pub struct Search {
     pub cache: HashMap<(Op, Vec<Kind>), usize>,
     /// fragments with identical text are stored once (text -> start index)
     pub text_cache: HashMap<String, usize>,
+    /// no code address is ever stored in the heap (alphabets without closures): the fragment cache
+    /// may be emptied when it grows large
+    pub evictable: bool,
     pub k: usize,
     /// identity integer variables in front of the window (moves the window across the
     /// register/spill boundary)
@@ -332,7 +346,7 @@ impl Search {
     pub fn new(arch: Arch, k: usize, max_live: usize, pad: usize) -> Search {
         let info = arch_info(arch);
         let heap_words = info.block_words * (max_live + 8);
-        Search { arch, info, types: std_types(), prog: AnyProg::new(arch), cache: HashMap::new(), text_cache: HashMap::new(), k, pad, max_live, heap_words, footprint_bound: 2, code_class: HashMap::new() }
+        Search { arch, info, types: std_types(), prog: AnyProg::new(arch), cache: HashMap::new(), text_cache: HashMap::new(), evictable: false, k, pad, max_live, heap_words, footprint_bound: 2, code_class: HashMap::new() }
     }
 
     /// The machine state right after the real prologue (or the harness set-up on RV64).
@@ -371,6 +385,12 @@ impl Search {
     fn code_for(&mut self, op: Op, kinds: &[Kind]) -> Result<usize, String> {
         if let Some(i) = self.cache.get(&(op, kinds.to_vec())) {
             return Ok(*i);
+        }
+        if self.evictable && self.cache.len() >= 30_000 {
+            // start a new code area: nothing in any state refers to code addresses
+            self.prog = AnyProg::new(self.arch);
+            self.cache.clear();
+            self.text_cache.clear();
         }
         let stmt = op_statement(&self.types, op, kinds, self.pad);
         let text = fragment(self.arch, &self.types, stmt, TypingContext { bindings: ctx_of(kinds) }).map_err(|e| format!("{e:?}"))?;
@@ -472,7 +492,7 @@ impl Search {
                 next.vals.push(RVal::Int(lit_value(n)));
                 expect_label = "stop0_".to_string();
             }
-            Op::Nil | Op::Leaf | Op::Cons | Op::Fork | Op::MkBox | Op::MkPair | Op::MkR4 => {
+            Op::Nil | Op::Leaf | Op::Cons | Op::Fork | Op::MkBox | Op::MkPair | Op::MkR4 | Op::MkPB => {
                 let (kind, tag, nargs) = match op {
                     Op::Nil => (Kind::List, 0, 0),
                     Op::Leaf => (Kind::Node, 0, 0),
@@ -480,6 +500,7 @@ impl Search {
                     Op::Fork => (Kind::Node, 1, 3),
                     Op::MkBox => (Kind::Box, 0, 1),
                     Op::MkPair => (Kind::Pair, 0, 2),
+                    Op::MkPB => (Kind::PB, 0, 4),
                     _ => (Kind::R4, 0, 4),
                 };
                 let fields: Vec<RVal> = next.vals.drain(n - nargs..).collect();
@@ -764,7 +785,12 @@ pub fn search(arch: Arch, k: usize, max_live: usize, mode: u8, pad: usize, max_s
 
 fn search_inner(arch: Arch, k: usize, max_live: usize, mode: u8, pad: usize, max_states: u64, ctx: &WorkerCtx, rep: &mut Report) -> BfsOutcome {
     let rss_cap: u64 = std::env::var("VERIF_RSS_CAP_MB").ok().and_then(|v| v.parse().ok()).unwrap_or(2500);
+    // every single search also has its own wall-clock slice (the large configurations do not
+    // converge; they are explored breadth-first to the depth the slice allows)
+    let slice_s: f64 = std::env::var("VERIF_BFS_SEARCH_S").ok().and_then(|v| v.parse().ok()).unwrap_or(if ctx.tier.thorough() { 240.0 } else { 90.0 });
+    let search_started = std::time::Instant::now();
     let mut s = Search::new(arch, k, max_live, pad);
+    s.evictable = mode >= 2;
     let mut out = BfsOutcome { states: 0, transitions: 0, depth: 0, fixpoint: false, cap: None };
     let init = match s.initial() {
         Ok(n) => n,
@@ -847,8 +873,8 @@ fn search_inner(arch: Arch, k: usize, max_live: usize, mode: u8, pad: usize, max
                 out.cap = Some(format!("state cap {max_states} hit at depth {depth} ({} K={k} live<={max_live}); all histories of length <= {depth} were covered", arch.name()));
                 break 'bfs;
             }
-            if ctx.out_of_time() {
-                out.cap = Some(format!("time budget hit at depth {depth} ({} K={k} live<={max_live}); all histories of length <= {depth} were covered", arch.name()));
+            if ctx.out_of_time() || search_started.elapsed().as_secs_f64() > slice_s {
+                out.cap = Some(format!("time slice hit at depth {depth} after {} states ({} K={k} live<={max_live} alphabet={mode} pad={pad}); all histories of length <= {depth} were covered", out.states, arch.name()));
                 break 'bfs;
             }
             if out.transitions % 8192 < 64 && rss_mb() > rss_cap {
